@@ -173,7 +173,7 @@ impl TypedProgram {
                     let identifier = format!("{party}::{identifier}");
                     const_sizes.insert(const_name.clone(), *const_sizes.get(&identifier).unwrap());
                 }
-                let n = resolve_const_expr_unsigned(&const_def.value, &consts_unsigned);
+                let n = resolve_const_expr_unsigned(&const_def.value, &consts_unsigned, USIZE_BITS);
                 const_sizes.insert(const_name.clone(), n as usize);
                 consts_unsigned.insert(const_name.clone(), n);
             }
@@ -213,7 +213,7 @@ impl TypedProgram {
                     Some((param, elem_ty, const_sizes.get(size).unwrap()))
                 }
                 Type::ArrayConstExpr(elem_ty, size) => {
-                    const_expr_size = resolve_const_expr_usize(size, &const_sizes);
+                    const_expr_size = resolve_const_expr_usize(size, &const_sizes, USIZE_BITS);
                     Some((param, elem_ty, &const_expr_size))
                 }
                 _ => None,
@@ -297,8 +297,11 @@ impl TypedProgram {
                 | ConstExprEnum::Add(_, _)
                 | ConstExprEnum::Sub(_, _) => {
                     if let Type::Unsigned(_) = const_def.ty {
+                        let bits = const_def
+                            .ty
+                            .size_in_bits_for_defs(self, circuit.const_sizes());
                         let result =
-                            resolve_const_expr_unsigned(&const_def.value, &consts_unsigned);
+                            resolve_const_expr_unsigned(&const_def.value, &consts_unsigned, bits);
                         let mut bits = Vec::with_capacity(
                             const_def
                                 .ty
@@ -314,7 +317,11 @@ impl TypedProgram {
                         let bits = bits.into_iter().map(|b| b as usize).collect();
                         env.let_in_current_scope(const_name.clone(), bits);
                     } else {
-                        let result = resolve_const_expr_signed(&const_def.value, &consts_signed);
+                        let bits = const_def
+                            .ty
+                            .size_in_bits_for_defs(self, circuit.const_sizes());
+                        let result =
+                            resolve_const_expr_signed(&const_def.value, &consts_signed, bits);
                         let mut bits = Vec::with_capacity(
                             const_def
                                 .ty
@@ -333,13 +340,16 @@ impl TypedProgram {
                 }
             }
             // Later const definitions can be defined in terms of this one:
+            let bits = const_def
+                .ty
+                .size_in_bits_for_defs(self, circuit.const_sizes());
             match const_def.ty {
                 Type::Unsigned(_) => {
-                    let n = resolve_const_expr_unsigned(&const_def.value, &consts_unsigned);
+                    let n = resolve_const_expr_unsigned(&const_def.value, &consts_unsigned, bits);
                     consts_unsigned.insert(const_name.clone(), n);
                 }
                 Type::Signed(_) => {
-                    let n = resolve_const_expr_signed(&const_def.value, &consts_signed);
+                    let n = resolve_const_expr_signed(&const_def.value, &consts_signed, bits);
                     consts_signed.insert(const_name.clone(), n);
                 }
                 _ => {}
@@ -356,10 +366,12 @@ impl TypedProgram {
 }
 
 macro_rules! make_resolve_const_function {
-    ($fn_ident:ident, $const_ty:ty) => {
+    ($fn_ident:ident, $const_ty:ty, $wrap:ident) => {
+        /// Evaluates a const expression in the wrapping arithmetic of a number type of `bits` bits.
         pub(crate) fn $fn_ident(
             ConstExpr(expr, _): &ConstExpr,
             consts_unsigned: &HashMap<String, $const_ty>,
+            bits: usize,
         ) -> $const_ty {
             match expr {
                 ConstExprEnum::NumUnsigned(n, _) => *n as $const_ty,
@@ -370,14 +382,14 @@ macro_rules! make_resolve_const_function {
                 ConstExprEnum::Max(args) => {
                     let mut result = <$const_ty>::MIN;
                     for arg in args {
-                        result = max(result, $fn_ident(arg, consts_unsigned));
+                        result = max(result, $fn_ident(arg, consts_unsigned, bits));
                     }
                     result
                 }
                 ConstExprEnum::Min(args) => {
                     let mut result = <$const_ty>::MAX;
                     for arg in args {
-                        result = min(result, $fn_ident(arg, consts_unsigned));
+                        result = min(result, $fn_ident(arg, consts_unsigned, bits));
                     }
                     result
                 }
@@ -385,10 +397,16 @@ macro_rules! make_resolve_const_function {
                     // TODO it is probably more sensible to return an error instead of wrapping.
                     // This would require changing this and calling functions to be fallible
                     // issue #227 (robinhundt 07.08.25)
-                    $fn_ident(lhs, consts_unsigned).wrapping_add($fn_ident(rhs, consts_unsigned))
+                    let lhs = $fn_ident(lhs, consts_unsigned, bits);
+                    let rhs = $fn_ident(rhs, consts_unsigned, bits);
+                    // (the sum wraps around in the type of the const, not in the wider type it is
+                    // computed with)
+                    $wrap(lhs.wrapping_add(rhs), bits)
                 }
                 ConstExprEnum::Sub(lhs, rhs) => {
-                    $fn_ident(lhs, consts_unsigned).wrapping_sub($fn_ident(rhs, consts_unsigned))
+                    let lhs = $fn_ident(lhs, consts_unsigned, bits);
+                    let rhs = $fn_ident(rhs, consts_unsigned, bits);
+                    $wrap(lhs.wrapping_sub(rhs), bits)
                 }
                 ConstExprEnum::ConstExprIdent(ident) => *consts_unsigned
                     .get(ident)
@@ -401,9 +419,28 @@ macro_rules! make_resolve_const_function {
     };
 }
 
-make_resolve_const_function!(resolve_const_expr_usize, usize);
-make_resolve_const_function!(resolve_const_expr_unsigned, u64);
-make_resolve_const_function!(resolve_const_expr_signed, i64);
+make_resolve_const_function!(resolve_const_expr_usize, usize, wrap_usize);
+make_resolve_const_function!(resolve_const_expr_unsigned, u64, wrap_unsigned);
+make_resolve_const_function!(resolve_const_expr_signed, i64, wrap_signed);
+
+/// The lowest `bits` bits of `n`.
+fn wrap_usize(n: usize, bits: usize) -> usize {
+    wrap_unsigned(n as u64, bits) as usize
+}
+
+/// The lowest `bits` bits of `n`.
+fn wrap_unsigned(n: u64, bits: usize) -> u64 {
+    if bits < 64 { n & !(u64::MAX << bits) } else { n }
+}
+
+/// The lowest `bits` bits of `n` as a signed number (of which the highest is the sign).
+fn wrap_signed(n: i64, bits: usize) -> i64 {
+    if 0 < bits && bits < 64 {
+        (n << (64 - bits)) >> (64 - bits)
+    } else {
+        n
+    }
+}
 
 fn compile_block(
     stmts: &[TypedStmt],
@@ -1572,7 +1609,7 @@ impl Type {
             ),
             Type::ArrayConstExpr(elem_ty, size) => (
                 elem_ty.size_in_bits_for_defs(prg, const_sizes),
-                resolve_const_expr_usize(size, const_sizes),
+                resolve_const_expr_usize(size, const_sizes, USIZE_BITS),
             ),
             _ => return None,
         })
@@ -1598,7 +1635,7 @@ impl Type {
             }
             Type::ArrayConstExpr(elem, size_expr) => {
                 elem.size_in_bits_for_defs(prg, const_sizes)
-                    * resolve_const_expr_usize(size_expr, const_sizes)
+                    * resolve_const_expr_usize(size_expr, const_sizes, USIZE_BITS)
             }
             Type::Tuple(values) => {
                 let mut size = 0;
